@@ -2,7 +2,8 @@ import RlibModel.Model.FftFloat
 /-!
 Line-protocol driver for engine `fft` (property C04).
 
-Case:  `fft <f64|f32> ; op ; op ; … ; op`   — all ops are performed on ONE object created by `new`;
+Case:  `fft <f64|f32> [new|default|clone|histclone] ; op ; op ; … ; op`   — all ops are performed on ONE object
+(created by `new()`, `default()`, `new().clone()`; `histclone`: history on a `new()` object, last call on its clone);
 the answer is the result of the LAST op (earlier ops are the call history).
 
 ops:  `u n` | `m a b` | `mi a b res` | `f v n` | `fi v n rx ry` | `inv xs ys` | `ii xs ys res` | `fm a b n` | `fmx a b n` | `fmi a b n res`
@@ -254,11 +255,28 @@ def viewOf {K} (P : Prec K) (exp : Option (List Int)) (inDom : Bool) (op : POp) 
     | _, _ => same
   | _, _ => rawU
 
-def runCase {K} (P : Prec K) (diag : Bool) (ops : List POp) : String :=
+/-- How the measured object is obtained (third header token, default `new`):
+    `new` = `FFT::new()`, `default` = `FFT::default()`, `clone` = `FFT::new().clone()`,
+    `histclone` = the history runs on an object made by `new()`, the measured call on its `.clone()`. -/
+inductive Ctor where
+  | new | default | clone | histclone
+
+def Ctor.parse? : String → Option Ctor
+  | "new" => some .new | "default" => some .default | "clone" => some .clone | "histclone" => some .histclone
+  | _ => none
+
+def runCase {K} (P : Prec K) (diag : Bool) (ctor : Ctor) (ops : List POp) : String :=
   match ops.reverse with
   | [] => "M INVALID | V INVALID | S any"
   | last :: histRev =>
-    let s := histRev.reverse.foldl (fun s op => (pcall P s op).1) (new P.A)
+    let s0 : State K := match ctor with
+      | .new | .histclone => new P.A
+      | .default => Fft.default P.A
+      | .clone => Fft.clone (new P.A)
+    let s := histRev.reverse.foldl (fun s op => (pcall P s op).1) s0
+    let s := match ctor with
+      | .histclone => Fft.clone s
+      | _ => s
     let used := (pcall P s last).2
     let fresh := (pcall P (new P.A) last).2
     let inDom := valueInDomain P last
@@ -277,8 +295,10 @@ def handle (diag : Bool) (line : String) : String :=
     | none => badLine line
     | some ops =>
       match tokens hdr with
-      | ["fft", "f64"] => runCase prec64 diag ops
-      | ["fft", "f32"] => runCase prec32 diag ops
+      | ["fft", "f64"] => runCase prec64 diag .new ops
+      | ["fft", "f32"] => runCase prec32 diag .new ops
+      | ["fft", "f64", c] => (match Ctor.parse? c with | some c => runCase prec64 diag c ops | none => badLine line)
+      | ["fft", "f32", c] => (match Ctor.parse? c with | some c => runCase prec32 diag c ops | none => badLine line)
       | _ => badLine line
 
 def main : IO Unit := do
